@@ -21,7 +21,7 @@ const EXEC: u8 = 2;
 const EVAL: u8 = 3;
 const NONE: (u8, u8) = (9, 0);
 
-const CAP: usize = 40;
+const CAP: usize = 24;
 static mut TRACE: [(u8, u8); CAP] = [(0, 0); CAP];
 static mut TLEN: usize = 0;
 static mut WANT: [(u8, u8); CAP] = [(0, 0); CAP];
@@ -31,6 +31,8 @@ static mut SCRIPT: [[bool; 2]; 2] = [[false; 2]; 2];
 static mut POS: [usize; 2] = [0; 2];
 static mut WPOS: [usize; 2] = [0; 2];
 static mut FAULT: (u8, u8) = NONE;
+/// number of symbolic answers a script gives before it answers false (loop pass bound)
+static mut MAXTRUE: usize = 2;
 
 fn log(ev: (u8, u8)) -> bool {
     unsafe {
@@ -64,305 +66,297 @@ impl CustomState<'_> for Mark2 {}
 pub struct Missing;
 impl CustomState<'_> for Missing {}
 
-/// Leaf component: logs every lifecycle call; `execute` bumps the caller-visible `Counter`
+/// Leaf component (id = const parameter): logs every lifecycle call; `execute` bumps the caller-visible `Counter`
 /// (non-shadowed outer state) and inserts `Mark<id>` into the scope it runs in.
 /// id 7 additionally requires a state nobody provides; id 6 shadows `Counter` in its scope.
 #[derive(Clone, Serialize)]
-pub struct Leaf {
-    id: u8,
-}
+pub struct Leaf<const ID: u8>;
 fn fail() -> ExecResult<()> {
     Err(eyre::eyre!("injected fault"))
 }
-impl Component<TagP> for Leaf {
+impl<const ID: u8> Component<TagP> for Leaf<ID> {
     fn init(&self, _p: &TagP, _s: &mut State<TagP>) -> ExecResult<()> {
-        if log((INIT, self.id)) {
+        if log((INIT, ID)) {
             return fail();
         }
         Ok(())
     }
     fn require(&self, _p: &TagP, req: &StateReq<TagP>) -> ExecResult<()> {
-        if log((REQ, self.id)) {
+        if log((REQ, ID)) {
             return fail();
         }
-        if self.id == 7 {
+        if ID == 7 {
             req.require::<Self, Missing>()?;
         }
         Ok(())
     }
     fn execute(&self, _p: &TagP, s: &mut State<TagP>) -> ExecResult<()> {
-        if log((EXEC, self.id)) {
+        if log((EXEC, ID)) {
             return fail();
         }
-        if self.id == 6 {
+        if ID == 6 {
             s.insert(Counter(1000));
         } else {
             *s.try_borrow_value_mut::<Counter>()? += 1;
         }
-        if self.id == 1 {
+        if ID == 1 {
             s.insert(Mark1(1));
         }
-        if self.id == 2 {
+        if ID == 2 {
             s.insert(Mark2(2));
         }
         Ok(())
     }
 }
-fn leaf(id: u8) -> Box<dyn Component<TagP>> {
-    Box::new(Leaf { id })
+fn leaf<const ID: u8>() -> Box<dyn Component<TagP>> {
+    Box::new(Leaf::<ID>)
 }
 
-/// Scripted condition (ids 10, 11).
+/// Scripted condition (ids 10, 11). The id is a const parameter so that the script position is
+/// a constant index for the engine (a field read through `dyn` is not folded).
 #[derive(Clone, Serialize)]
-pub struct Script {
-    id: u8,
-}
-impl Condition<TagP> for Script {
+pub struct Script<const ID: u8>;
+impl<const ID: u8> Condition<TagP> for Script<ID> {
     fn init(&self, _p: &TagP, _s: &mut State<TagP>) -> ExecResult<()> {
-        unsafe { POS[(self.id - 10) as usize] = 0 };
-        if log((INIT, self.id)) {
+        unsafe { POS[(ID - 10) as usize] = 0 };
+        if log((INIT, ID)) {
             return fail();
         }
         Ok(())
     }
     fn require(&self, _p: &TagP, _r: &StateReq<TagP>) -> ExecResult<()> {
-        if log((REQ, self.id)) {
+        if log((REQ, ID)) {
             return fail();
         }
         Ok(())
     }
     fn evaluate(&self, _p: &TagP, _s: &mut State<TagP>) -> ExecResult<bool> {
-        if log((EVAL, self.id)) {
+        if log((EVAL, ID)) {
             return Err(eyre::eyre!("injected fault"));
         }
         unsafe {
-            let c = (self.id - 10) as usize;
-            let r = if POS[c] < 2 { SCRIPT[c][POS[c]] } else { false };
+            let c = (ID - 10) as usize;
+            let r = if POS[c] < MAXTRUE { SCRIPT[c][POS[c]] } else { false };
             POS[c] += 1;
             Ok(r)
         }
     }
 }
-fn cond(id: u8) -> Box<dyn Condition<TagP>> {
-    Box::new(Script { id })
+fn cond<const ID: u8>() -> Box<dyn Condition<TagP>> {
+    Box::new(Script::<ID>)
 }
 
-// ---- tree description, real construction, reference interpreter -----------------------------------
-
-#[derive(Clone, Copy)]
-enum T {
-    Leaf(u8),
-    Seq2(&'static T, &'static T),
-    Seq3(&'static T, &'static T, &'static T),
-    While(u8, &'static T),
-    If(u8, &'static T),
-    IfElse(u8, &'static T, &'static T),
-    Scope(&'static T),
-}
-
-fn build(t: &T) -> Box<dyn Component<TagP>> {
-    match *t {
-        T::Leaf(id) => leaf(id),
-        T::Seq2(a, b) => Block::new(vec![build(a), build(b)]),
-        T::Seq3(a, b, c) => Block::new(vec![build(a), build(b), build(c)]),
-        T::While(c, b) => Loop::new(cond(c), vec![build(b)]),
-        T::If(c, b) => Branch::new(cond(c), vec![build(b)]),
-        T::IfElse(c, a, b) => Branch::new_with_else(cond(c), vec![build(a)], vec![build(b)]),
-        T::Scope(b) => Scope::new(vec![build(b)]),
-    }
-}
+// ---- reference semantics ---------------------------------------------------------------------------
+// The expected trace of each tree is written down as the structured program it denotes, using the
+// helpers below (a generic recursive interpreter over a tree value was tried first: CBMC does not
+// fold the matches on a static tree and unwinds the recursion 1000+ times). NOTE also that the
+// real configuration of each tree is built inside its harness with exactly the builder calls it
+// needs, so that only the control-flow components it uses are reachable for `dyn` dispatch.
 
 /// Expected effects besides the trace.
 struct Fx {
-    counter: u32,         // caller-visible Counter
-    iters: u32,           // Iterations in the caller's scope
-    iters_present: bool,  // a loop was initialised in the caller's scope
+    counter: u32,        // caller-visible Counter
+    iters: u32,          // Iterations in the caller's scope
+    iters_present: bool, // a loop was initialised in the caller's scope
     mark1_root: bool,
     mark2_root: bool,
 }
-
-struct Interp {
-    fx: Fx,
-    level: u32,            // scope nesting while interpreting
-    shadowed: bool,        // Counter shadowed in the current scope (leaf 6 ran in it)
-}
-impl Interp {
-    fn phase(&mut self, t: &T, ph: u8) -> Result<(), ()> {
-        match *t {
-            T::Leaf(id) => {
-                if want((ph, id)) {
-                    return Err(());
-                }
-                if ph == REQ && id == 7 {
-                    return Err(());
-                }
-                Ok(())
-            }
-            T::Seq2(a, b) => {
-                self.phase(a, ph)?;
-                self.phase(b, ph)
-            }
-            T::Seq3(a, b, c) => {
-                self.phase(a, ph)?;
-                self.phase(b, ph)?;
-                self.phase(c, ph)
-            }
-            T::While(c, b) => {
-                if ph == INIT {
-                    if self.level == 0 {
-                        self.fx.iters = 0;
-                        self.fx.iters_present = true;
-                    }
-                    unsafe { WPOS[(c - 10) as usize] = 0 };
-                }
-                if want((ph, c)) {
-                    return Err(());
-                }
-                self.phase(b, ph)
-            }
-            T::If(c, b) => {
-                if ph == INIT {
-                    unsafe { WPOS[(c - 10) as usize] = 0 };
-                }
-                if want((ph, c)) {
-                    return Err(());
-                }
-                self.phase(b, ph)
-            }
-            T::IfElse(c, a, b) => {
-                if ph == INIT {
-                    unsafe { WPOS[(c - 10) as usize] = 0 };
-                }
-                if want((ph, c)) {
-                    return Err(());
-                }
-                self.phase(a, ph)?;
-                self.phase(b, ph)
-            }
-            // Scope has no init/require of its own: its body is set up on entry
-            T::Scope(_) => Ok(()),
-        }
+type R = Result<(), ()>;
+fn e(ph: u8, id: u8) -> R {
+    if ph == INIT && id >= 10 {
+        unsafe { WPOS[(id - 10) as usize] = 0 };
     }
-    fn answer(&mut self, c: u8) -> Result<bool, ()> {
-        if want((EVAL, c)) {
-            return Err(());
-        }
-        unsafe {
-            let i = (c - 10) as usize;
-            let r = if WPOS[i] < 2 { SCRIPT[i][WPOS[i]] } else { false };
-            WPOS[i] += 1;
-            Ok(r)
-        }
-    }
-    fn exec(&mut self, t: &T) -> Result<(), ()> {
-        match *t {
-            T::Leaf(id) => {
-                if want((EXEC, id)) {
-                    return Err(());
-                }
-                if id == 6 {
-                    if self.level > 0 {
-                        self.shadowed = true;
-                    } else {
-                        self.fx.counter = 1000;
-                    }
-                } else if !self.shadowed {
-                    self.fx.counter += 1;
-                }
-                if self.level == 0 && id == 1 {
-                    self.fx.mark1_root = true;
-                }
-                if self.level == 0 && id == 2 {
-                    self.fx.mark2_root = true;
-                }
-                Ok(())
-            }
-            T::Seq2(a, b) => {
-                self.exec(a)?;
-                self.exec(b)
-            }
-            T::Seq3(a, b, c) => {
-                self.exec(a)?;
-                self.exec(b)?;
-                self.exec(c)
-            }
-            T::While(c, b) => {
-                // the loop re-initialises its condition on entry
-                unsafe { WPOS[(c - 10) as usize] = 0 };
-                if want((INIT, c)) {
-                    return Err(());
-                }
-                while self.answer(c)? {
-                    self.exec(b)?;
-                    if self.level == 0 {
-                        self.fx.iters += 1;
-                    }
-                }
-                Ok(())
-            }
-            T::If(c, b) => {
-                if self.answer(c)? {
-                    self.exec(b)?;
-                }
-                Ok(())
-            }
-            T::IfElse(c, a, b) => {
-                if self.answer(c)? {
-                    self.exec(a)
-                } else {
-                    self.exec(b)
-                }
-            }
-            T::Scope(b) => {
-                let was_shadowed = self.shadowed;
-                self.level += 1;
-                let r = self.phase(b, INIT).and_then(|_| self.phase(b, REQ)).and_then(|_| self.exec(b));
-                self.level -= 1;
-                // state created inside is gone, shadowed outer state is restored
-                self.shadowed = was_shadowed;
-                r
-            }
-        }
+    if want((ph, id)) {
+        Err(())
+    } else {
+        Ok(())
     }
 }
-
-/// Drive one tree through the real `Configuration::run` and compare with the interpreter.
-fn run_tree(t: &'static T, faults: &[(u8, u8)], via_builder: bool) {
+fn ans(c: u8) -> Result<bool, ()> {
+    if want((EVAL, c)) {
+        return Err(());
+    }
     unsafe {
+        let i = (c - 10) as usize;
+        let r = if WPOS[i] < MAXTRUE { SCRIPT[i][WPOS[i]] } else { false };
+        WPOS[i] += 1;
+        Ok(r)
+    }
+}
+/// A leaf executes: bumps the caller-visible counter unless it is shadowed in the current scope;
+/// its mark stays only if it ran outside every scope.
+fn x(fx: &mut Fx, id: u8, in_scope: bool, shadowed: bool) -> R {
+    e(EXEC, id)?;
+    if !shadowed {
+        fx.counter += 1;
+    }
+    if !in_scope && id == 1 {
+        fx.mark1_root = true;
+    }
+    if !in_scope && id == 2 {
+        fx.mark2_root = true;
+    }
+    Ok(())
+}
+
+fn want_seq(fx: &mut Fx) -> R {
+    e(INIT, 1)?;
+    e(INIT, 2)?;
+    e(REQ, 1)?;
+    e(REQ, 2)?;
+    x(fx, 1, false, false)?;
+    x(fx, 2, false, false)
+}
+fn want_missing(_fx: &mut Fx) -> R {
+    e(INIT, 1)?;
+    e(INIT, 7)?;
+    e(REQ, 1)?;
+    e(REQ, 7)?;
+    Err(()) // leaf 7 requires a state nobody provides
+}
+fn want_while(fx: &mut Fx) -> R {
+    fx.iters_present = true;
+    e(INIT, 10)?;
+    e(INIT, 1)?;
+    e(REQ, 10)?;
+    e(REQ, 1)?;
+    e(INIT, 10)?; // the loop re-initialises its condition on entry
+    while ans(10)? {
+        x(fx, 1, false, false)?;
+        fx.iters += 1;
+    }
+    Ok(())
+}
+fn want_ifelse(fx: &mut Fx) -> R {
+    e(INIT, 10)?;
+    e(INIT, 1)?;
+    e(INIT, 2)?;
+    e(REQ, 10)?;
+    e(REQ, 1)?;
+    e(REQ, 2)?;
+    if ans(10)? {
+        x(fx, 1, false, false)
+    } else {
+        x(fx, 2, false, false)
+    }
+}
+fn want_if(fx: &mut Fx) -> R {
+    e(INIT, 10)?;
+    e(INIT, 1)?;
+    e(INIT, 2)?;
+    e(REQ, 10)?;
+    e(REQ, 1)?;
+    e(REQ, 2)?;
+    if ans(10)? {
+        x(fx, 1, false, false)?;
+    }
+    x(fx, 2, false, false)
+}
+fn want_scope(fx: &mut Fx) -> R {
+    // L3; scope{L1}; L2 — the scope body is set up on entry, not with the rest
+    e(INIT, 3)?;
+    e(INIT, 2)?;
+    e(REQ, 3)?;
+    e(REQ, 2)?;
+    x(fx, 3, false, false)?;
+    e(INIT, 1)?;
+    e(REQ, 1)?;
+    x(fx, 1, true, false)?;
+    x(fx, 2, false, false)
+}
+fn want_shadow(fx: &mut Fx) -> R {
+    // scope{L6; L1}; L2
+    e(INIT, 2)?;
+    e(REQ, 2)?;
+    e(INIT, 6)?;
+    e(INIT, 1)?;
+    e(REQ, 6)?;
+    e(REQ, 1)?;
+    e(EXEC, 6)?; // shadows Counter inside the scope
+    x(fx, 1, true, true)?;
+    x(fx, 2, false, false)
+}
+fn want_while_scope(fx: &mut Fx) -> R {
+    fx.iters_present = true;
+    e(INIT, 10)?;
+    e(REQ, 10)?;
+    e(INIT, 10)?;
+    while ans(10)? {
+        e(INIT, 1)?;
+        e(REQ, 1)?;
+        x(fx, 1, true, false)?;
+        fx.iters += 1;
+    }
+    Ok(())
+}
+fn want_nested(fx: &mut Fx) -> R {
+    fx.iters_present = true;
+    e(INIT, 10)?;
+    e(INIT, 11)?;
+    e(INIT, 1)?;
+    e(REQ, 10)?;
+    e(REQ, 11)?;
+    e(REQ, 1)?;
+    e(INIT, 10)?;
+    while ans(10)? {
+        e(INIT, 11)?;
+        while ans(11)? {
+            x(fx, 1, false, false)?;
+            fx.iters += 1;
+        }
+        fx.iters += 1;
+    }
+    Ok(())
+}
+fn want_scope_while(fx: &mut Fx) -> R {
+    // scope{while(c10){L1}}; L2 — the loop counter lives (and dies) inside the scope
+    e(INIT, 2)?;
+    e(REQ, 2)?;
+    e(INIT, 10)?;
+    e(INIT, 1)?;
+    e(REQ, 10)?;
+    e(REQ, 1)?;
+    e(INIT, 10)?;
+    while ans(10)? {
+        x(fx, 1, true, false)?;
+    }
+    x(fx, 2, false, false)
+}
+
+/// Drive one tree through the real `Configuration::run` and compare with its reference semantics.
+fn run_tree(want_fn: fn(&mut Fx) -> R, faults: &[(u8, u8)], config: Configuration<TagP>) {
+    run_tree_n(want_fn, faults, config, 2)
+}
+fn run_tree_n(want_fn: fn(&mut Fx) -> R, faults: &[(u8, u8)], config: Configuration<TagP>, maxtrue: usize) {
+    unsafe {
+        MAXTRUE = maxtrue;
         SCRIPT = [[sym::bool(), sym::bool()], [sym::bool(), sym::bool()]];
         let k = sym::u8() as usize;
         FAULT = if k < faults.len() { faults[k] } else { NONE };
         TLEN = 0;
         WLEN = 0;
     }
-    let config: Configuration<TagP> = if via_builder {
-        Configuration::builder().do_(build(t)).build()
-    } else {
-        Configuration::new(build(t))
-    };
     let mut state: State<TagP> = State::new();
     state.insert(Counter(0));
     let r = config.run(&TagP, &mut state);
 
-    let mut it = Interp { fx: Fx { counter: 0, iters: 0, iters_present: false, mark1_root: false, mark2_root: false }, level: 0, shadowed: false };
-    let want_r = it.phase(t, INIT).and_then(|_| it.phase(t, REQ)).and_then(|_| it.exec(t));
+    let mut fx = Fx { counter: 0, iters: 0, iters_present: false, mark1_root: false, mark2_root: false };
+    let want_r = want_fn(&mut fx);
 
     assert!(r.is_err() == want_r.is_err(), "the run fails exactly when the structured program fails (first error is returned)");
     unsafe {
         assert!(TLEN == WLEN && TLEN <= CAP, "exactly the expected number of lifecycle events");
-        let mut i = 0;
-        while i < TLEN {
-            assert!(TRACE[i] == WANT[i], "components run in the order of the corresponding structured program");
-            i += 1;
-        }
+        // unrolled (a loop here would force the unwind bound of every other loop up to CAP)
+        macro_rules! same { ($($i:expr),*) => { $( assert!($i >= TLEN || TRACE[$i] == WANT[$i], "components run in the order of the corresponding structured program"); )* } }
+        same!(0, 1, 2, 3, 4, 5, 6, 7, 8, 9, 10, 11, 12, 13, 14, 15, 16, 17, 18, 19, 20, 21, 22, 23);
     }
     // the caller's state: same depth, nothing removed, scope-local state gone
     assert!(state.parent().is_none(), "every scope that was opened is closed again");
-    assert!(state.try_get_value::<Counter>().ok() == Some(it.fx.counter), "caller's state is intact: writes to non-shadowed outer state persist, shadowed state is restored");
-    assert!(state.contains::<Mark1>() == it.fx.mark1_root, "state created inside a scope is gone afterwards; state created outside persists (Mark1)");
-    assert!(state.contains::<Mark2>() == it.fx.mark2_root, "state created inside a scope is gone afterwards; state created outside persists (Mark2)");
-    if it.fx.iters_present {
-        assert!(state.try_get_value::<Iterations>().ok() == Some(it.fx.iters), "the loop counts completed passes");
+    assert!(state.try_get_value::<Counter>().ok() == Some(fx.counter), "caller's state is intact: writes to non-shadowed outer state persist, shadowed state is restored");
+    assert!(state.contains::<Mark1>() == fx.mark1_root, "state created inside a scope is gone afterwards; state created outside persists (Mark1)");
+    assert!(state.contains::<Mark2>() == fx.mark2_root, "state created inside a scope is gone afterwards; state created outside persists (Mark2)");
+    if fx.iters_present {
+        assert!(state.try_get_value::<Iterations>().ok() == Some(fx.iters), "the loop counts completed passes");
     }
     vcover!(r.is_err(), "a failing run");
     vcover!(r.is_ok(), "a successful run");
@@ -370,95 +364,83 @@ fn run_tree(t: &'static T, faults: &[(u8, u8)], via_builder: bool) {
     std::mem::forget(config);
 }
 
-static L1: T = T::Leaf(1);
-static L2: T = T::Leaf(2);
-static L3: T = T::Leaf(3);
-static L6: T = T::Leaf(6);
-static L7: T = T::Leaf(7);
 
-static T_SEQ: T = T::Seq2(&L1, &L2);
 /// @h tier=quick bound="tree: L1; L2 — fault in {none, init L2, require L1, execute L1, execute L2}" unwind=5 cost=4 mem=10
 #[cfg_attr(kani, kani::proof)]
 #[cfg_attr(kani, kani::unwind(5))]
 pub fn h_c03_seq() {
-    run_tree(&T_SEQ, &[(INIT, 2), (REQ, 1), (EXEC, 1), (EXEC, 2)], true);
+    run_tree(want_seq, &[(INIT, 2), (REQ, 1), (EXEC, 1), (EXEC, 2)], Configuration::builder().do_(leaf::<1>()).do_(leaf::<2>()).build());
 }
 
-static T_REQ: T = T::Seq2(&L1, &L7);
 /// @h tier=quick bound="tree: L1; L7 (requires a missing state) — nothing executes" unwind=5 cost=4 mem=10 dead="a successful run"
 #[cfg_attr(kani, kani::proof)]
 #[cfg_attr(kani, kani::unwind(5))]
 pub fn h_c03_missing_requirement() {
-    run_tree(&T_REQ, &[], true);
+    run_tree(want_missing, &[], Configuration::builder().do_(leaf::<1>()).do_(leaf::<7>()).build());
     unsafe {
-        let mut i = 0;
-        while i < TLEN && i < CAP {
-            assert!(TRACE[i].0 != EXEC, "a failed requirement means nothing executes");
-            i += 1;
-        }
+        macro_rules! noexec { ($($i:expr),*) => { $( assert!($i >= TLEN || TRACE[$i].0 != EXEC, "a failed requirement means nothing executes"); )* } }
+        noexec!(0, 1, 2, 3, 4, 5, 6, 7);
     }
 }
 
-static T_WHILE: T = T::While(10, &L1);
-/// @h tier=quick bound="tree: while(c10){L1} — <= 2 passes (symbolic), fault in {none, execute L1, evaluate c10}" unwind=5 cost=6 mem=12 timeout=900
+/// @h tier=thorough bound="tree: while(c10){L1} — 0 or 1 pass (symbolic), fault in {none, execute L1}" unwind=5 cost=9 mem=28 timeout=1800
 #[cfg_attr(kani, kani::proof)]
 #[cfg_attr(kani, kani::unwind(5))]
 pub fn h_c03_while() {
-    run_tree(&T_WHILE, &[(EXEC, 1), (EVAL, 10)], false);
+    run_tree_n(want_while, &[(EXEC, 1)], Configuration::builder().while_(cond::<10>(), |b| b.do_(leaf::<1>())).build(), 1);
+}
+/// @h tier=thorough bound="tree: while(c10){L1} — <= 2 passes (symbolic), fault in {none, execute L1, evaluate c10}" unwind=5 cost=9 mem=28 timeout=1800
+#[cfg_attr(kani, kani::proof)]
+#[cfg_attr(kani, kani::unwind(5))]
+pub fn h_c03_while_2() {
+    run_tree_n(want_while, &[(EXEC, 1), (EVAL, 10)], Configuration::builder().while_(cond::<10>(), |b| b.do_(leaf::<1>())).build(), 2);
 }
 
-static T_IFELSE: T = T::IfElse(10, &L1, &L2);
 /// @h tier=quick bound="tree: if(c10){L1}else{L2} — symbolic outcome, fault in {none, execute L2}" unwind=5 cost=5 mem=12 timeout=900
 #[cfg_attr(kani, kani::proof)]
 #[cfg_attr(kani, kani::unwind(5))]
 pub fn h_c03_ifelse() {
-    run_tree(&T_IFELSE, &[(EXEC, 2)], false);
+    run_tree(want_ifelse, &[(EXEC, 2)], Configuration::builder().if_else_(cond::<10>(), |b| b.do_(leaf::<1>()), |b| b.do_(leaf::<2>())).build());
 }
 
-static T_IF: T = T::Seq2(&T::If(10, &L1), &L2);
-/// @h tier=quick bound="tree: if(c10){L1}; L2 — symbolic outcome" unwind=5 cost=5 mem=12 timeout=900
+/// @h tier=quick bound="tree: if(c10){L1}; L2 — symbolic outcome" unwind=5 cost=5 mem=12 timeout=900 dead="a failing run"
 #[cfg_attr(kani, kani::proof)]
 #[cfg_attr(kani, kani::unwind(5))]
 pub fn h_c03_if() {
-    run_tree(&T_IF, &[], true);
+    run_tree(want_if, &[], Configuration::builder().if_(cond::<10>(), |b| b.do_(leaf::<1>())).do_(leaf::<2>()).build());
 }
 
-static T_SCOPE: T = T::Seq3(&L3, &T::Scope(&L1), &L2);
 /// @h tier=quick bound="tree: L3; scope{L1}; L2 — fault in {none, execute L1 (inside the scope), init L1, execute L2}" unwind=5 cost=7 mem=14 timeout=900
 #[cfg_attr(kani, kani::proof)]
 #[cfg_attr(kani, kani::unwind(5))]
 pub fn h_c03_scope() {
-    run_tree(&T_SCOPE, &[(EXEC, 1), (INIT, 1), (EXEC, 2)], true);
+    run_tree(want_scope, &[(EXEC, 1), (INIT, 1), (EXEC, 2)], Configuration::builder().do_(leaf::<3>()).scope_(|b| b.do_(leaf::<1>())).do_(leaf::<2>()).build());
 }
 
-static T_SHADOW: T = T::Seq2(&T::Scope(&T::Seq2(&L6, &L1)), &L2);
 /// @h tier=quick bound="tree: scope{L6 (shadows Counter); L1}; L2 — shadowed outer state is restored" unwind=5 cost=7 mem=14 timeout=900 dead="a failing run"
 #[cfg_attr(kani, kani::proof)]
 #[cfg_attr(kani, kani::unwind(5))]
 pub fn h_c03_scope_shadow() {
-    run_tree(&T_SHADOW, &[], false);
+    run_tree(want_shadow, &[], Configuration::builder().scope_(|b| b.do_(leaf::<6>()).do_(leaf::<1>())).do_(leaf::<2>()).build());
 }
 
-static T_WHILE_SCOPE: T = T::While(10, &T::Scope(&L1));
 /// @h tier=thorough bound="tree: while(c10){scope{L1}} — scope body initialised on every entry; fault in {none, execute L1}" unwind=5 cost=9 mem=24 timeout=1800
 #[cfg_attr(kani, kani::proof)]
 #[cfg_attr(kani, kani::unwind(5))]
 pub fn h_c03_while_scope() {
-    run_tree(&T_WHILE_SCOPE, &[(EXEC, 1)], false);
+    run_tree(want_while_scope, &[(EXEC, 1)], Configuration::builder().while_(cond::<10>(), |b| b.scope_(|b| b.do_(leaf::<1>()))).build());
 }
 
-static T_NESTED: T = T::While(10, &T::While(11, &L1));
 /// @h tier=thorough bound="tree: while(c10){while(c11){L1}} — both scripts symbolic (<= 2x2 passes), shared pass counter" unwind=5 cost=9 mem=24 timeout=1800 dead="a failing run"
 #[cfg_attr(kani, kani::proof)]
 #[cfg_attr(kani, kani::unwind(5))]
 pub fn h_c03_nested_while() {
-    run_tree(&T_NESTED, &[], false);
+    run_tree(want_nested, &[], Configuration::builder().while_(cond::<10>(), |b| b.while_(cond::<11>(), |b| b.do_(leaf::<1>()))).build());
 }
 
-static T_SCOPE_WHILE: T = T::Seq2(&T::Scope(&T::While(10, &L1)), &L2);
 /// @h tier=thorough bound="tree: scope{while(c10){L1}}; L2 — fault in {none, execute L1}" unwind=5 cost=9 mem=24 timeout=1800
 #[cfg_attr(kani, kani::proof)]
 #[cfg_attr(kani, kani::unwind(5))]
 pub fn h_c03_scope_while() {
-    run_tree(&T_SCOPE_WHILE, &[(EXEC, 1)], true);
+    run_tree(want_scope_while, &[(EXEC, 1)], Configuration::builder().scope_(|b| b.while_(cond::<10>(), |b| b.do_(leaf::<1>()))).do_(leaf::<2>()).build());
 }
